@@ -1,3 +1,3 @@
 SPECIFICATION Spec
-CONSTANTS BitSpace = 4 Honest = TRUE Window = 1 MaxRounds = 2 MaxGen = 1 MaxHon = 0 MaxDup = 0 CreditBy = "object" Reset = FALSE
+CONSTANTS BitSpace = 4 Honest = TRUE Window = 1 MaxRounds = 2 MaxHon = 0 MaxDup = 0 CreditBy = "object"
 INVARIANT NoLateAnswer
